@@ -407,6 +407,7 @@ def run_roles(ctx):
     import os
 
     import yarl
+    from yarl import URL
 
     warnings.simplefilter("ignore")
     P = ctx.params
@@ -471,6 +472,39 @@ def run_roles(ctx):
             for kind in {kind_of(ti) for ti in range(nthreads)}:
                 ctx.ev(("roles", kind, nthreads, rd % 3))
             ctx.count("role_rounds")
+        # CONFIGURATION survives: the only cache_configure(n, n, n) of a trial runs while other threads loop over cache_clear(),
+        # cache_info() and URL traffic - none of which changes a size - so after the join all three caches must have maxsize n
+        # (whatever the interleaving: every sequential order of these calls ends there)
+        sys.setswitchinterval(1e-6)
+        for trial in range(P.get("config_trials", 120)):
+            n_ = 300 + trial
+            yarl.cache_configure()
+            stop = threading.Event()
+
+            def clearer():
+                k_ = 0
+                while not stop.is_set():
+                    yarl.cache_clear()
+                    if k_ % 3 == 0:
+                        yarl.cache_info()
+                    URL(f"http://bücher{k_ % 7}.example/").host
+                    k_ += 1
+
+            cts = [threading.Thread(target=clearer, daemon=True) for _ in range(2)]
+            for t in cts:
+                t.start()
+            for _ in range(trial % 5):
+                time.sleep(0)
+            yarl.cache_configure(idna_encode_size=n_, idna_decode_size=n_, encode_host_size=n_)
+            stop.set()
+            for t in cts:
+                t.join(60)
+            sizes = {k: v.maxsize for k, v in yarl.cache_info().items()}
+            ctx.count("config_survival_trials")
+            if set(sizes.values()) != {n_}:
+                ctx.fail("cache_configuration_lost", {"trial": trial, "part": "roles", "configured": n_}, f"cache_configure(size={n_}) ran concurrently with cache_clear()/cache_info(); afterwards the sizes are {sizes}")
+                break
+        yarl.cache_configure()
     finally:
         sys.setswitchinterval(old_si)
     ctx.count("role_calls_checked", total)
